@@ -60,6 +60,12 @@ fn parse_comment<'n>(node: Node<'n, 'n>) -> Option<String> {
 
 /// The name of the Rust type for an XML name: PascalCase; `Self` is the one PascalCase keyword and can not be a raw
 /// identifier, so it gets a trailing underscore.
+/// Text from the schema that is written between the quotes of a Rust string literal (enumeration values, namespace
+/// URIs): quotes, backslashes, line breaks and the like are escaped, so the literal evaluates to exactly this text.
+pub fn as_string_literal_content(text: &str) -> String {
+    text.escape_debug().to_string()
+}
+
 pub fn xml_name_to_rust_name(xml_name: &str) -> String {
     let rust_name = to_pascal_case(xml_name);
     if rust_name == "Self" { "Self_".to_string() } else { rust_name }
